@@ -9,7 +9,10 @@ sed -i "$expr" "$file"
 if git diff --quiet; then echo "MUTATION DID NOT APPLY"; exit 2; fi
 git --no-pager diff | grep '^[+-]' | grep -v '^+++\|^---'
 cd /verif
+cp evidence/$prop.json /tmp/evidence.$prop.keep 2>/dev/null
 VERIF_SEED=${VERIF_SEED:-1} bin/check $prop --tier $tier 2>&1 | tail -${MUT_TAIL:-6}
 rc=${PIPESTATUS[0]}
 git -C /repo checkout -- .
+# evidence must only ever describe runs on the unchanged tree
+[ -f /tmp/evidence.$prop.keep ] && mv /tmp/evidence.$prop.keep evidence/$prop.json
 echo "check rc=$rc"
